@@ -187,6 +187,6 @@ theorem resolveImpl_eq (o : Obj) (iname member : Str) (h : iname ≠ []) :
       | none => rfl
       | some im =>
         obtain ⟨i, m⟩ := im
-        by_cases hi : i = iname <;> simp [hi, hdec]
+        by_cases hi : i = iname <;> simp [hi]
 
 end Txdbus.Obj.DispatchProofs
